@@ -635,6 +635,19 @@ func (c *FnCtx) evalCall(env *SpecEnv, e *Expr) (Val, error) {
 			return mathInt(args[0].Base()), nil
 		}
 		return Val{}, fmt.Errorf("base of non-slice")
+	case "deref":
+		// deref(p): the value p points to, in the heap of the evaluation context
+		if err := evalArgs(); err != nil {
+			return Val{}, err
+		}
+		if len(args) != 1 {
+			return Val{}, fmt.Errorf("deref(p) takes one argument")
+		}
+		a := c.addrOfPointer(args[0])
+		if a == nil {
+			return Val{}, fmt.Errorf("deref of non-pointer")
+		}
+		return c.loadAt(env.heap, a), nil
 	case "as":
 		// as(T, x): x viewed at static type T (interface conversions keep the same value)
 		if len(e.Args) != 2 {
